@@ -190,19 +190,50 @@ def specOf (env : Env) (cfg : Cfg) (req : Req) : Op → Json
         | .error _ => Json.mkObj [("fields", .null)]
   | _ => .null
 
-def main : IO Unit := jsonDriver fun j => do
-  let (cfg, hsize) ← parseCfg (← getField j "cfg")
-  let req ← parseReq (← getField j "req")
-  let ops ← match (← getField j "ops") with
-    | .arr xs => xs.toList.mapM parseOp
-    | _ => throw "bad ops"
+/-- ticket-level case: {"ticket":{"secret","userid","ip","tokens":[s],"user_data","time":n,"hsize":n,
+     "psecret","pip"}, "hash":…, "uni":…}  →  `AuthTicket(...).cookie_value()` and `parse_ticket` of that value under
+(psecret, pip): {"value":s|null,"value_err":s|null,"parse":{"r":"ok",ts,userid,tokens,userdata}|{"r":"bad"}|{"r":"raised","err"}} -/
+def ticketCase (j t : Json) : Except String Json := do
+  let hsize : Nat ← getAs t "hsize"
   let H ← parseHash (← getField j "hash") hsize
   let U ← parseUni (← getField j "uni")
   let env : Env := ⟨H, U⟩
-  let (rs, st) := runOps env cfg req {} ops
-  return Json.mkObj [
-    ("results", Json.arr (rs.map resultJson).toArray),
-    ("response", Json.arr ((finish st).map cookieJson).toArray),
-    ("st", Json.mkObj [("reissued", toJson st.reissued), ("revoked", toJson st.revoked)]),
-    ("dins", Json.arr ((ops.map (dinOf env cfg req)).map fun | some b => Json.str (hexStr b) | none => .null).toArray),
-    ("spec", Json.arr (ops.map (specOf env cfg req)).toArray)]
+  let secret ← getText t "secret"
+  let userid ← getText t "userid"
+  let ip ← getText t "ip"
+  let toks ← match (← getField t "tokens") with
+    | .arr xs => xs.toList.mapM fun x => do let s : String ← fromJson? x; pure s.toList
+    | _ => throw "bad tokens"
+  let ud ← getText t "user_data"
+  let time : Nat ← getAs t "time"
+  let psecret ← getText t "psecret"
+  let pip ← getText t "pip"
+  match cookieValue env secret userid ip toks ud time with
+  | .error e => return Json.mkObj [("value", .null), ("value_err", Json.str (errName e)), ("parse", .null)]
+  | .ok v =>
+    let pr : Json := match parseTicket env psecret v pip with
+      | .error e => Json.mkObj [("r", "raised"), ("err", Json.str (errName e))]
+      | .ok none => Json.mkObj [("r", "bad")]
+      | .ok (some p) => Json.mkObj [("r", "ok"), ("ts", Json.str (toString p.ts)), ("userid", txt p.userid),
+          ("tokens", Json.arr ((splitAll ',' p.tokens).map txt).toArray), ("userdata", txt p.userData)]
+    return Json.mkObj [("value", txt v), ("value_err", .null), ("parse", pr)]
+
+def main : IO Unit := jsonDriver fun j => do
+  match j.getObjVal? "ticket" with
+  | .ok t => ticketCase j t
+  | .error _ =>
+    let (cfg, hsize) ← parseCfg (← getField j "cfg")
+    let req ← parseReq (← getField j "req")
+    let ops ← match (← getField j "ops") with
+      | .arr xs => xs.toList.mapM parseOp
+      | _ => throw "bad ops"
+    let H ← parseHash (← getField j "hash") hsize
+    let U ← parseUni (← getField j "uni")
+    let env : Env := ⟨H, U⟩
+    let (rs, st) := runOps env cfg req {} ops
+    return Json.mkObj [
+      ("results", Json.arr (rs.map resultJson).toArray),
+      ("response", Json.arr ((finish st).map cookieJson).toArray),
+      ("st", Json.mkObj [("reissued", toJson st.reissued), ("revoked", toJson st.revoked)]),
+      ("dins", Json.arr ((ops.map (dinOf env cfg req)).map fun | some b => Json.str (hexStr b) | none => .null).toArray),
+      ("spec", Json.arr (ops.map (specOf env cfg req)).toArray)]
